@@ -49,6 +49,8 @@ use vh::util::{read_ndjson, repo_root, NdWriter};
 mod imgenc;
 #[path = "c03_purity/vargen.rs"]
 mod vargen;
+#[path = "c03_purity/pairgen.rs"]
+mod pairgen;
 
 // ---- fonts ------------------------------------------------------------------------------------
 
@@ -723,6 +725,176 @@ fn img_selfcheck(cfg: &FontCfg) -> Value {
     json!({"font": cfg.name, "imgs": imgs, "tables_expected": imgs.count_ones(), "tables_found_with_payload": ok, "stray_tables": stray})
 }
 
+// ---- bitmap fonts with several strikes (`strike` family) --------------------------------------------
+
+fn strikes_of(desc: &Value) -> Vec<imgenc::Strike> {
+    desc["strikes"].as_array().map(|a| a.iter().map(|s| imgenc::Strike {
+        ppem: s["ppem"].as_u64().unwrap() as u8, depth: s["depth"].as_u64().unwrap() as u8,
+        first: s["first"].as_u64().unwrap() as u16, last: s["last"].as_u64().unwrap() as u16 }).collect()).unwrap_or_default()
+}
+
+/// A font whose one bitmap table (imgs = 8: EBLC/EBDT, 2: CBLC/CBDT) has the strikes of the descriptor.
+fn strike_font(desc: &Value) -> FontCfg {
+    let imgs = desc["imgs"].as_u64().unwrap_or(8) as u8;
+    let strikes = strikes_of(desc);
+    let mut f = TtFont::new((0..8).map(|i| if i == 0 { GlyphSpec::Empty } else { triangle(i as i16 * 10) }).collect());
+    f.cmap = vec![(0x41, 1), (0x42, 2), (0x43, 3), (0x25CC, 4), (0x1F600, 5), (0x44, 6)];
+    let (loc, dat) = imgenc::strike_tables(if imgs == imgenc::CBDT { 3 } else { 2 }, &strikes);
+    let (lt, dt) = if imgs == imgenc::CBDT { ("CBLC", "CBDT") } else { ("EBLC", "EBDT") };
+    f.extra_tables.push((lt.into(), loc));
+    f.extra_tables.push((dt.into(), dat));
+    FontCfg {
+        name: format!("strike-{}", dt.to_lowercase()),
+        data: f.build(),
+        scripts: [tagv("latn"), tagv("grek")],
+        lang: tagv("dflt"),
+        words: vec!["A\u{1F600}".into()],
+        fam: "strike",
+        damage: Damage::default(),
+        desc: desc.clone(),
+        feats: vec![],
+        l2feats: vec![],
+    }
+}
+
+/// Independent look at a strike font (own sfnt reader, plain offset arithmetic): the location table declares the
+/// strikes of the descriptor in order, the data table holds the pixels of every (strike, glyph).
+fn strike_selfcheck(cfg: &FontCfg) -> Value {
+    let imgs = cfg.desc["imgs"].as_u64().unwrap_or(8) as u8;
+    let strikes = strikes_of(&cfg.desc);
+    let dir = read_sfnt_dir(&cfg.data, 0).expect("sfnt");
+    let (lt, dt) = if imgs == imgenc::CBDT { ("CBLC", "CBDT") } else { ("EBLC", "EBDT") };
+    let declared = table_bytes(&cfg.data, &dir, lt).and_then(imgenc::read_strikes);
+    let dat = table_bytes(&cfg.data, &dir, dt).unwrap_or(&[]);
+    let mut pixels = 0usize;
+    let mut wanted = 0usize;
+    for (k, s) in strikes.iter().enumerate() {
+        for g in s.first..=s.last {
+            wanted += 1;
+            let px = imgenc::strike_pixels(k, g, s.depth);
+            if dat.windows(px.len()).any(|w| w == &px[..]) {
+                pixels += 1;
+            }
+        }
+    }
+    let depths: std::collections::BTreeSet<u8> = strikes.iter().map(|s| s.depth).collect();
+    // glyphs every strike of which is deeper than the shallowest strike of the font (a lower limit finds nothing)
+    let min_depth = depths.iter().next().copied().unwrap_or(0);
+    let deep_only = (1..8u16).filter(|g| { let d: Vec<u8> = strikes.iter().filter(|s| s.first <= *g && *g <= s.last).map(|s| s.depth).collect(); !d.is_empty() && d.iter().all(|x| *x > min_depth) }).count();
+    json!({"font": cfg.name, "strikes": strikes.len(), "declared_as_dictated": declared.as_ref() == Some(&strikes), "bitmaps_expected": wanted, "bitmaps_found": pixels,
+           "distinct_bit_depths": depths.len(), "glyphs_only_in_deeper_strikes": deep_only})
+}
+
+// ---- PairPos lookups with overlapping sub-tables (`pairs` family) ------------------------------------
+
+const PAIR_WORDS: [&str; 12] = ["AB", "AC", "AD", "EF", "BD", "CA", "DA", "CD", "ABAC", "EFAD", "DACA", "XY"];
+
+fn pairs_font(desc: &Value) -> FontCfg {
+    let lookups = pairgen::plookups(&desc["lookups"]);
+    let mut f = TtFont::new((0..LAYOUT_GLYPHS).map(|i| if i == 0 { GlyphSpec::Empty } else { triangle(i as i16) }).collect());
+    f.cmap = layout_cmap();
+    f.extra_tables.push(("GPOS".into(), pairgen::build_gpos(&lookups, &gid)));
+    let mut feats: Vec<String> = lookups.iter().map(|l| l.feat.clone()).collect();
+    feats.sort();
+    feats.dedup();
+    FontCfg {
+        name: "pairs".into(),
+        data: f.build(),
+        scripts: [tagv("latn"), tagv("grek")],
+        lang: tagv("dflt"),
+        words: PAIR_WORDS.iter().map(|w| w.to_string()).collect(),
+        fam: "pairs",
+        damage: Damage::default(),
+        desc: desc.clone(),
+        feats,
+        l2feats: vec![],
+    }
+}
+
+/// Facts about the pairs font measured on its bytes (own reader) and on the layout: the sub-tables lie where and as
+/// the layout says; the model's `objs` of each lookup are the Coverages / ClassDefs of its sub-tables; how many pairs
+/// of letters are handled by more than one sub-table of a lookup (overlap), and how many by a later one only.
+fn pairs_selfcheck(cfg: &FontCfg) -> Value {
+    let lookups = pairgen::plookups(&cfg.desc["lookups"]);
+    let dir = read_sfnt_dir(&cfg.data, 0).expect("sfnt");
+    let confirmed = table_bytes(&cfg.data, &dir, "GPOS").and_then(|t| pairgen::walk(t, &lookups, &gid));
+    let specs = lspecs(&cfg.desc["lookups"]);
+    let objs_ok = lookups.iter().all(|l| {
+        let want: Vec<(String, usize)> = l.subs.iter().flat_map(|s| if s.fmt == 1 { vec![("cov".to_string(), s.at + 32)] }
+            else { vec![("cov".to_string(), s.at + 32), ("cls".to_string(), s.at + 64), ("cls".to_string(), s.at + 96)] }).collect();
+        specs.iter().find(|x| x.tbl == "GPOS" && x.idx == l.idx).map(|x| x.objs.iter().map(|o| (o.kind.clone(), o.pos)).collect::<Vec<_>>() == want).unwrap_or(false)
+    });
+    let (mut overlap, mut later_only) = (0usize, 0usize);
+    for l in &lookups {
+        for a in 'A'..='Z' {
+            for b in 'A'..='Z' {
+                let h = pairgen::handlers(l, a, b);
+                if h.len() > 1 { overlap += 1 }
+                if h.first().map(|j| *j > 0).unwrap_or(false) { later_only += 1 }
+            }
+        }
+    }
+    json!({"font": cfg.name, "lookups": lookups.len(), "sub_tables": lookups.iter().map(|l| l.subs.len()).sum::<usize>(), "layout_confirmed": confirmed.is_some(),
+           "facts_confirmed": confirmed.unwrap_or(0), "objs_match_sub_tables": objs_ok, "pairs_handled_by_several_sub_tables": overlap,
+           "pairs_handled_by_a_later_sub_table_only": later_only})
+}
+
+/// What allsorts answers on a FRESH pairs font (diagnostic, judged by the driver only after the violations): the
+/// kerning of a two-letter text is minus the value of the first sub-table that handles it, per lookup, summed.
+fn pairs_fresh_results(cfg: &FontCfg) -> Value {
+    let lookups = pairgen::plookups(&cfg.desc["lookups"]);
+    let mut checked = 0usize;
+    let mut agree = 0usize;
+    let mut sample = Vec::new();
+    for a in ['A', 'B', 'C', 'D', 'E', 'X'] {
+        for b in ['A', 'B', 'C', 'D', 'F', 'Y'] {
+            for kern in [true, false] {
+                let c = Call::Shape { text: format!("{}{}", a, b), script: tagv("latn"), lang: None, mask: 0, custom: false, ctags: vec![], tuple: None, kern };
+                let fresh = run_both(cfg, &[], &c).1;
+                let want: i32 = lookups.iter().filter(|l| l.feat == "dist" || (kern && l.feat == "kern")).map(|l| {
+                    match pairgen::handlers(l, a, b).first() {
+                        Some(j) => { let s = &l.subs[*j]; if s.fmt == 1 || s.cls2.contains(&b) { -(s.val as i32) } else { 0 } }
+                        None => 0,
+                    }
+                }).sum();
+                let got: Vec<i32> = fresh.split("kerning: ").skip(1).filter_map(|t| t.split(|c: char| c != '-' && !c.is_ascii_digit()).next().and_then(|n| n.parse().ok())).collect();
+                checked += 1;
+                if got == vec![want, 0] {
+                    agree += 1;
+                } else if sample.len() < 3 {
+                    sample.push(json!({"text": format!("{}{}", a, b), "kern": kern, "want_first": want, "got": got}));
+                }
+            }
+        }
+    }
+    json!({"font": cfg.name, "two_letter_texts": checked, "kerning_as_first_handling_sub_table": agree, "disagreements": sample})
+}
+
+/// The layout of the pairs font as MC_FontCache writes it, shifted by `shift` bytes (random histories).
+fn pairs_desc(shift: usize, swap: bool) -> Value {
+    let cs = |s: &str| -> Vec<String> { s.chars().map(|c| c.to_string()).collect() };
+    let p1 = |at: usize, cov: &str, pairs: &[&str], val: i64| json!({"fmt": 1, "at": at + shift, "cov": cs(cov), "covstr": cov,
+        "pairs": pairs.iter().map(|p| cs(p)).collect::<Vec<_>>(), "cls2": [], "cls2str": "", "val": val});
+    let p2 = |at: usize, cov: &str, c2: &str, val: i64| json!({"fmt": 2, "at": at + shift, "cov": cs(cov), "covstr": cov, "pairs": [], "cls2": cs(c2), "cls2str": c2, "val": val});
+    let lookup = |idx: usize, feat: &str, subs: Vec<Value>| {
+        let mut objs = Vec::new();
+        for s in &subs {
+            let at = s["at"].as_u64().unwrap() as usize;
+            objs.push(json!({"kind": "cov", "pos": at + 32, "rel": 32, "content": s["covstr"]}));
+            if s["fmt"] == 2 {
+                objs.push(json!({"kind": "cls", "pos": at + 64, "rel": 64, "content": s["covstr"]}));
+                objs.push(json!({"kind": "cls", "pos": at + 96, "rel": 96, "content": s["cls2str"]}));
+            }
+        }
+        json!({"tbl": "GPOS", "idx": idx, "feat": feat, "typ": "pairs", "ext": false, "sub": subs[0]["at"], "l2": false, "objs": objs, "nested": [], "subs": subs})
+    };
+    // `swap`: the class table comes last in kern (the exception pairs of both format 1 sub-tables precede it)
+    let kern = if swap { vec![p1(2560, "AB", &["AC", "BD"], 100), p1(2720, "AE", &["AD", "EF"], 10), p2(2880, "ABE", "BCF", 30)] }
+               else { vec![p1(2560, "AB", &["AC", "BD"], 100), p2(2720, "AB", "BC", 30), p1(2880, "AE", &["AD", "EF"], 10)] };
+    json!({"fam": "pairs", "damaged": [], "imgs": 0, "sub": "",
+           "lookups": [lookup(0, "kern", kern), lookup(1, "dist", vec![p2(3584, "C", "AD", 7), p1(3744, "CD", &["CA", "DA"], 3)])]})
+}
+
 // ---- the variable font of the `var` family ---------------------------------------------------------
 
 const VAR_WORDS: [&str; 4] = ["1/2 AVWXB 12/21", "CDE AV 2/1", "\u{0628}\u{0644}\u{0627} \u{0644}\u{0628}\u{0628}", "\u{0628}\u{0628}"];
@@ -988,7 +1160,8 @@ enum Call {
     Shape { text: String, script: u32, lang: Option<u32>, mask: u64, custom: bool, ctags: Vec<u32>, tuple: Option<Vec<f32>>, kern: bool },
     /// the public accessor of a lazily loaded table
     Table { kind: String },
-    Image { g: u16, ppem: u16 },
+    /// `depth`: max_bit_depth of lookup_glyph_image (1 2 4 8 32)
+    Image { g: u16, ppem: u16, depth: u8 },
     HasImages,
     SetFilter { bits: u8, f: u8 },
     HAdvance { g: u16 },
@@ -1045,10 +1218,10 @@ fn exec<T: FontTableProvider>(font: &mut Font<T>, c: &Call) -> String {
                 Err((e, infos)) => format!("Err {:?} {:?}", e, infos),
             }
         }
-        Call::Image { g, ppem } => match font.lookup_glyph_image(*g, *ppem, BitDepth::ThirtyTwo) {
+        Call::Image { g, ppem, depth } => match font.lookup_glyph_image(*g, *ppem, match depth { 1 => BitDepth::One, 2 => BitDepth::Two, 4 => BitDepth::Four, 8 => BitDepth::Eight, _ => BitDepth::ThirtyTwo }) {
             Ok(Some(b)) => {
                 let data = match &b.bitmap {
-                    allsorts::bitmap::Bitmap::Embedded(e) => format!("embedded {}x{} {}", e.width, e.height, fnv(&e.data)),
+                    allsorts::bitmap::Bitmap::Embedded(e) => format!("embedded depth={} {}x{} {}", e.format as u8, e.width, e.height, fnv(&e.data)),
                     allsorts::bitmap::Bitmap::Encapsulated(e) => format!("encapsulated {}", fnv(&e.data)),
                 };
                 format!("Some {:?} {:?} {:?} {}", b.ppem_x, b.ppem_y, b.metrics, data)
@@ -1255,10 +1428,11 @@ fn concretise(c: &Value, cfg: &FontCfg) -> Call {
             // `mfeats` (when given): the features the caller names; `feats`: those of them that are in force
             let feats: Vec<u32> = c.get("mfeats").unwrap_or(&c["feats"]).as_array().map(|a| a.iter().map(|f| tag_u32(f.as_str().unwrap())).collect()).unwrap_or_default();
             // fonts whose layout the model knows: the mask / custom list is the set of features the call names
-            let collide = cfg.fam == "collide" || cfg.fam == "var" || (cfg.fam == "fill" && !cfg.feats.is_empty());
+            let collide = cfg.fam == "collide" || cfg.fam == "var" || cfg.fam == "pairs" || (cfg.fam == "fill" && !cfg.feats.is_empty());
             Call::Shape {
             // var: the Arabic words under the Arabic script
-            text: if cfg.fam == "var" && s("script") == "s4" { cfg.words[2].clone() } else { cfg.words[0].clone() },
+            // pairs: the call carries its text
+            text: if cfg.fam == "pairs" { s("text").to_string() } else if cfg.fam == "var" && s("script") == "s4" { cfg.words[2].clone() } else { cfg.words[0].clone() },
             script: script_of(s("script"), cfg),
             lang: lang_of(s("lang"), cfg),
             // m1 and m2 must stay different after gsub_apply_default intersects them with the
@@ -1277,7 +1451,7 @@ fn concretise(c: &Value, cfg: &FontCfg) -> Call {
             kern: c["kern"].as_bool().unwrap_or(true),
         }},
         "Table" => Call::Table { kind: s("k").to_string() },
-        "Image" => Call::Image { g: c["g"].as_u64().unwrap_or(1) as u16, ppem: 100 },
+        "Image" => Call::Image { g: c["g"].as_u64().unwrap_or(1) as u16, ppem: c["ppem"].as_u64().unwrap_or(100) as u16, depth: c["depth"].as_u64().unwrap_or(32) as u8 },
         "HasImages" => Call::HasImages,
         "SetFilter" => set_filter(c["f"].as_u64().unwrap_or(0) as u8),
         "ReadCached" => Call::ReadCached {
@@ -1309,6 +1483,11 @@ struct Universe {
     var: BTreeMap<String, Vec<Rc<FontCfg>>>,
     var_selfchecks: Vec<Value>,
     var_fresh: Vec<Value>,
+    strike: BTreeMap<String, Vec<Rc<FontCfg>>>,
+    strike_selfchecks: Vec<Value>,
+    pairs: BTreeMap<String, Vec<Rc<FontCfg>>>,
+    pairs_selfchecks: Vec<Value>,
+    pairs_fresh: Vec<Value>,
 }
 
 /// Facts about a fill font measured on its bytes (own reader): every Coverage of the layout lies where the
@@ -1336,7 +1515,8 @@ impl Universe {
         let intact = intact.into_iter().map(Rc::new).collect();
         Universe { intact, bases, dmg: BTreeMap::new(), collide: BTreeMap::new(), dropped: 0, selfchecks: vec![],
                    img: BTreeMap::new(), img_selfchecks: vec![], img_fresh: vec![], fill: BTreeMap::new(), fill_selfchecks: vec![], fill_fresh: vec![],
-                   var: BTreeMap::new(), var_selfchecks: vec![], var_fresh: vec![] }
+                   var: BTreeMap::new(), var_selfchecks: vec![], var_fresh: vec![],
+                   strike: BTreeMap::new(), strike_selfchecks: vec![], pairs: BTreeMap::new(), pairs_selfchecks: vec![], pairs_fresh: vec![] }
     }
 
     fn of(&mut self, desc: &Value, modes: &[Mode]) -> Vec<Rc<FontCfg>> {
@@ -1381,6 +1561,25 @@ impl Universe {
                 }
                 self.var[&key].clone()
             }
+            "strike" => {
+                let key = format!("{}{}", desc["imgs"], desc["strikes"]);
+                if !self.strike.contains_key(&key) {
+                    let cfg = strike_font(desc);
+                    self.strike_selfchecks.push(strike_selfcheck(&cfg));
+                    self.strike.insert(key.clone(), vec![Rc::new(cfg)]);
+                }
+                self.strike[&key].clone()
+            }
+            "pairs" => {
+                let key = desc["lookups"].to_string();
+                if !self.pairs.contains_key(&key) {
+                    let cfg = pairs_font(desc);
+                    self.pairs_selfchecks.push(pairs_selfcheck(&cfg));
+                    self.pairs_fresh.push(pairs_fresh_results(&cfg));
+                    self.pairs.insert(key.clone(), vec![Rc::new(cfg)]);
+                }
+                self.pairs[&key].clone()
+            }
             "fill" => {
                 let sub = desc["sub"].as_str().unwrap_or("").to_string();
                 let key = format!("{}/{}", sub, desc["lookups"].as_array().map(|a| a.len()).unwrap_or(0));
@@ -1417,7 +1616,7 @@ fn img_fresh_results(cfg: &FontCfg) -> Value {
     let sel = |f: u8| [imgenc::SVG, imgenc::CBDT, imgenc::SBIX, imgenc::EBDT].iter().copied().find(|b| imgs & f & b != 0).unwrap_or(0);
     let mut by_sel: BTreeMap<u8, std::collections::BTreeSet<String>> = BTreeMap::new();
     for f in 0..16u8 {
-        let (_, fresh) = run_both(cfg, &[set_filter(f)], &Call::Image { g: 1, ppem: 100 });
+        let (_, fresh) = run_both(cfg, &[set_filter(f)], &Call::Image { g: 1, ppem: 100, depth: 32 });
         by_sel.entry(sel(f)).or_default().insert(fresh);
     }
     let all: std::collections::BTreeSet<&String> = by_sel.values().flatten().collect();
@@ -1488,6 +1687,16 @@ struct InputFacts {
     var_failed_main_stage_then_shape: usize,
     /// ... in which two calls with kerning carry different tuples whose adjustments (by the layout) differ
     var_two_tuples_with_different_adjustments: usize,
+    /// strike: histories in which a lookup of a glyph under a bit depth limit below every strike that holds it precedes
+    /// a lookup of the same glyph under a limit that admits one (by the descriptor's strikes, same filter in force)
+    strike_histories: usize,
+    strike_shallow_then_deeper_limit: usize,
+    /// ... in which two lookups of one glyph name different sizes
+    strike_two_sizes: usize,
+    /// pairs: histories in which a pair that (by the layout) a later sub-table handles first precedes a pair that an
+    /// earlier sub-table of the same lookup handles first and that the later one handles too
+    pairs_histories: usize,
+    pairs_later_sub_table_then_overlapping_pair: usize,
 }
 
 const FRAC_BIT: u64 = FeatureMask::FRAC.bits();
@@ -1585,6 +1794,61 @@ impl InputFacts {
                     self.var_two_tuples_with_different_adjustments += 1;
                 }
             }
+            "strike" => {
+                self.strike_histories += 1;
+                let strikes = strikes_of(&cfg.desc);
+                let imgs = cfg.desc["imgs"].as_u64().unwrap_or(0) as u8;
+                let all: Vec<&Call> = history.iter().chain(fan.iter()).collect();
+                let nh = history.len();
+                // the filter in force at each call (fan calls: the history's last)
+                let mut cur = 7u8;
+                let mut filt = Vec::new();
+                for (j, c) in all.iter().enumerate() {
+                    if j < nh { if let Call::SetFilter { f, .. } = c { cur = *f; } }
+                    filt.push(cur);
+                }
+                let admits = |g: u16, depth: u8| strikes.iter().any(|s| s.first <= g && g <= s.last && s.depth <= depth);
+                let holds = |g: u16| strikes.iter().any(|s| s.first <= g && g <= s.last);
+                let mut shallow = false;
+                let mut sizes = false;
+                for k in 0..nh {
+                    if let Call::Image { g, ppem, depth } = all[k] {
+                        for j in (k + 1)..all.len() {
+                            if let Call::Image { g: g2, ppem: p2, depth: d2 } = all[j] {
+                                let same_filter = filt[k] == filt[j] && (k..j.min(nh)).all(|x| !matches!(all[x], Call::SetFilter { .. }));
+                                if g == g2 && same_filter && filt[k] & imgs != 0 && holds(*g) && !admits(*g, *depth) && admits(*g, *d2) { shallow = true }
+                                if g == g2 && ppem != p2 { sizes = true }
+                            }
+                        }
+                    }
+                }
+                self.strike_shallow_then_deeper_limit += shallow as usize;
+                self.strike_two_sizes += sizes as usize;
+            }
+            "pairs" => {
+                self.pairs_histories += 1;
+                let lookups = pairgen::plookups(&cfg.desc["lookups"]);
+                let all: Vec<&Call> = history.iter().chain(fan.iter()).collect();
+                let nh = history.len();
+                let pairs_of = |c: &Call| -> Vec<(char, char, bool)> { match c { Call::Shape { text, kern, .. } => { let v: Vec<char> = text.chars().collect(); v.windows(2).map(|w| (w[0], w[1], *kern)).collect() } _ => vec![] } };
+                let mut hit = false;
+                for l in &lookups {
+                    for k in 0..nh {
+                        for (a, b, kern) in pairs_of(all[k]) {
+                            if l.feat == "kern" && !kern { continue }
+                            let j1 = match pairgen::handlers(l, a, b).first() { Some(j) if *j > 0 => *j, _ => continue };
+                            for j in (k + 1)..all.len() {
+                                for (a2, b2, kern2) in pairs_of(all[j]) {
+                                    if l.feat == "kern" && !kern2 { continue }
+                                    let h = pairgen::handlers(l, a2, b2);
+                                    if h.first().map(|x| *x < j1).unwrap_or(false) && h.contains(&j1) { hit = true }
+                                }
+                            }
+                        }
+                    }
+                }
+                self.pairs_later_sub_table_then_overlapping_pair += hit as usize;
+            }
             "scopes" => {
                 self.scopes_histories += 1;
                 for c in history {
@@ -1604,7 +1868,33 @@ impl InputFacts {
                "scopes_histories": self.scopes_histories, "scopes_routes_in_paths": self.scopes_routes_in_paths,
                "var_histories": self.var_histories, "var_failed_rvrn_then_substituting_rvrn": self.var_failed_rvrn_then_substituting_rvrn,
                "var_failed_main_stage_then_shape": self.var_failed_main_stage_then_shape,
-               "var_two_tuples_with_different_adjustments": self.var_two_tuples_with_different_adjustments})
+               "var_two_tuples_with_different_adjustments": self.var_two_tuples_with_different_adjustments,
+               "strike_histories": self.strike_histories, "strike_shallow_then_deeper_limit": self.strike_shallow_then_deeper_limit,
+               "strike_two_sizes": self.strike_two_sizes, "pairs_histories": self.pairs_histories,
+               "pairs_later_sub_table_then_overlapping_pair": self.pairs_later_sub_table_then_overlapping_pair})
+    }
+}
+
+/// The fresh font's answer in the model's vocabulary: strike family, lookup_glyph_image -> [ppem, bit depth] of the
+/// bitmap returned ([] = none); pairs family, shaping -> the kerning of every glyph.
+fn observation(cfg: &FontCfg, probe: &Call, fresh: &str) -> Option<Value> {
+    let num_after = |t: &str, key: &str| -> Vec<i64> {
+        t.split(key).skip(1).filter_map(|x| x.split(|c: char| c != '-' && !c.is_ascii_digit()).next().and_then(|n| n.parse().ok())).collect()
+    };
+    match (cfg.fam, probe) {
+        ("strike", Call::Image { .. }) => {
+            if fresh == "None" {
+                Some(json!([]))
+            } else if fresh.starts_with("Some") {
+                let p = num_after(fresh, "Some Some(");
+                let d = num_after(fresh, "depth=");
+                Some(json!([p.first().copied().unwrap_or(-1), d.first().copied().unwrap_or(-1)]))
+            } else {
+                Some(json!([-1]))
+            }
+        }
+        ("pairs", Call::Shape { .. }) if fresh.starts_with("Ok") => Some(json!(num_after(fresh, "kerning: "))),
+        _ => None,
     }
 }
 
@@ -1677,6 +1967,11 @@ fn replay(cases: &str, out: &str) {
                     o["after"] = json!(after.chars().take(300).collect::<String>());
                     o["fresh"] = json!(fresh.chars().take(300).collect::<String>());
                 }
+                // strike / pairs: what the FRESH font answered, in the model's vocabulary (the judge compares it with the
+                // strike / the sub-tables the model selects: binding of the model's font semantics, not a purity verdict)
+                if let Some(obs) = observation(cfg, &probe, &fresh) {
+                    o["obs"] = obs;
+                }
                 w.write(&json!({"i": i, "case": case_id, "ev": "Call", "a": {"call": f["call"], "probe": true,
                                 "predicted": f["impure"], "font": cfg.name}, "o": o}));
             }
@@ -1690,7 +1985,8 @@ fn replay(cases: &str, out: &str) {
         "damaged_variants": uni.dmg.values().map(|v| v.len()).sum::<usize>(), "damaged_variants_dropped": uni.dropped,
         "damaged_probes_reporting_the_error": dmg_error_probes, "collide_selfcheck": uni.selfchecks,
         "img_selfcheck": uni.img_selfchecks, "img_fresh_results": uni.img_fresh, "fill_selfcheck": uni.fill_selfchecks, "fill_fresh_results": uni.fill_fresh,
-        "var_selfcheck": uni.var_selfchecks, "var_fresh_results": uni.var_fresh, "input_facts": facts.json()}));
+        "var_selfcheck": uni.var_selfchecks, "var_fresh_results": uni.var_fresh, "input_facts": facts.json(),
+        "strike_selfcheck": uni.strike_selfchecks, "pairs_selfcheck": uni.pairs_selfchecks, "pairs_fresh_results": uni.pairs_fresh}));
 }
 
 // ---- random long histories --------------------------------------------------------------------
@@ -1752,6 +2048,13 @@ fn abstract_of(c: &Call, cfg: &FontCfg) -> Value {
             json!({"op": "Shape", "text": text, "script": sid, "lang": format!("{:?}", lang),
                    "mask": m(eff), "mask0": m(eff & !FRAC_BIT), "frac": frac, "tuple": tid, "kern": kern, "custom": custom, "feats": feats})
         }
+        Call::Shape { text, script, lang, mask, kern, .. } if cfg.fam == "pairs" => {
+            // the text glyph by glyph; the GPOS features every run gets (dist, and kern when kerning is asked for)
+            let glyphs: Vec<String> = text.chars().map(|c| c.to_string()).collect();
+            json!({"op": "Shape", "text": text, "glyphs": glyphs, "script": format!("{:08x}", script), "lang": format!("{:?}", lang),
+                   "mask": format!("{:x}", mask), "mask0": format!("{:x}", mask), "frac": false, "tuple": "none", "kern": kern, "custom": false,
+                   "feats": if *kern { vec!["dist", "kern"] } else { vec!["dist"] }})
+        }
         Call::Shape { text, script, lang, mask, custom, ctags, tuple, kern } => {
             // the lookups cache is keyed by the mask AFTER intersection with the features the
             // font supports for (script, lang): that intersection is the identity the model needs
@@ -1773,6 +2076,7 @@ fn abstract_of(c: &Call, cfg: &FontCfg) -> Value {
                    "custom": custom, "feats": feats})
         }
         Call::Table { kind } => json!({"op": "Table", "k": kind}),
+        Call::Image { g, ppem, depth } if cfg.fam == "strike" => json!({"op": "Image", "g": g, "ppem": ppem, "depth": depth}),
         Call::Image { g, .. } => json!({"op": "Image", "g": g}),
         Call::HasImages => json!({"op": "HasImages"}),
         Call::SetFilter { f, .. } => json!({"op": "SetFilter", "f": f}),
@@ -1860,10 +2164,26 @@ fn random_call(rng: &mut StdRng, cfg: &FontCfg) -> Call {
             kern: rng.gen_bool(0.7),
         };
     }
+    if cfg.fam == "strike" {
+        return match rng.gen_range(0..12) {
+            0 => set_filter([15, 7, 8, 2, 0][rng.gen_range(0..5)]),
+            1 => Call::HasImages,
+            _ => Call::Image { g: rng.gen_range(0..8), ppem: [8, 10, 12, 16, 20, 24, 30, 32, 100, 300][rng.gen_range(0..10)], depth: [1, 2, 4, 8, 32][rng.gen_range(0..5)] },
+        };
+    }
+    if cfg.fam == "pairs" {
+        if rng.gen_range(0..12) == 0 {
+            return Call::Table { kind: "gpos".to_string() };
+        }
+        // a word of the family or two to five random letters of the layout
+        let text = if rng.gen_bool(0.5) { cfg.words.choose(rng).unwrap().clone() }
+                   else { (0..rng.gen_range(2..6)).map(|_| ['A', 'B', 'C', 'D', 'E', 'F', 'X'][rng.gen_range(0..7)]).collect() };
+        return Call::Shape { text, script: cfg.scripts[0], lang: None, mask: 0, custom: false, ctags: vec![], tuple: None, kern: rng.gen_bool(0.8) };
+    }
     if cfg.fam == "img" {
         return match rng.gen_range(0..10) {
             0..=3 => set_filter(rng.gen_range(0..16)),
-            4 | 5 => Call::Image { g: rng.gen_range(0..6), ppem: [16, 100, 300][rng.gen_range(0..3)] },
+            4 | 5 => Call::Image { g: rng.gen_range(0..6), ppem: [16, 100, 300][rng.gen_range(0..3)], depth: 32 },
             6 | 7 => Call::HasImages,
             8 => Call::LookupGlyph { ch: '\u{1F600}', required: true, vs: [None, Some(16u8), Some(15u8)][rng.gen_range(0..3)] },
             _ => Call::MapGlyphs { text: "A\u{1F600}\u{25CC}\u{FE0F}".into(), script: cfg.scripts[0], required: true },
@@ -1921,7 +2241,7 @@ fn random_call(rng: &mut StdRng, cfg: &FontCfg) -> Call {
             },
             kern: rng.gen_bool(0.5),
         },
-        14 => Call::Image { g: rng.gen_range(0..6), ppem: [16, 100, 300][rng.gen_range(0..3)] },
+        14 => Call::Image { g: rng.gen_range(0..6), ppem: [16, 100, 300][rng.gen_range(0..3)], depth: 32 },
         15 => Call::HasImages,
         16 => match rng.gen_range(0..4) {
             0 => set_filter(7),
@@ -2045,6 +2365,20 @@ fn record(seed: u64, histories: usize, len: usize, fill: usize, out: &str) {
     for kind in ["", "fv", "dmg"] {
         var.extend(uni.of(&var_desc_shifted(64 * rng.gen_range(0..4usize), kind), &modes));
     }
+    // strike: random strikes (3 to 6; sizes, bit depths and glyph ranges drawn from the seed), as EBLC and as CBLC
+    let mut strike: Vec<Rc<FontCfg>> = Vec::new();
+    for kind in [imgenc::EBDT, imgenc::CBDT] {
+        let strikes: Vec<Value> = (0..rng.gen_range(3..7)).map(|_| {
+            let first = rng.gen_range(1..6u16);
+            let (ppem, depth, last) = ([8, 12, 16, 24, 32][rng.gen_range(0..5)], [1, 2, 4, 8, 32][rng.gen_range(0..5)], rng.gen_range(first..7u16));
+            json!({"ppem": ppem, "depth": depth, "first": first, "last": last})
+        }).collect();
+        strike.extend(uni.of(&json!({"fam": "strike", "damaged": [], "lookups": [], "imgs": kind, "sub": "", "strikes": strikes}), &modes));
+    }
+    let mut pairs: Vec<Rc<FontCfg>> = Vec::new();
+    for swap in [false, true] {
+        pairs.extend(uni.of(&pairs_desc(2 * rng.gen_range(0..80usize), swap), &modes));
+    }
     let mut w = NdWriter::create(out);
     let mut i = 0u64;
     let mut n_differs = 0usize;
@@ -2054,8 +2388,8 @@ fn record(seed: u64, histories: usize, len: usize, fill: usize, out: &str) {
     let mut n_panics = 0usize;
     let mut facts = InputFacts::default();
     for h in 0..histories {
-        let pool = [&intact, &dmg, &collide, &img, &scopes, &var][h % 6];
-        let cfg = &pool[(h / 6) % pool.len()];
+        let pool = [&intact, &dmg, &collide, &img, &scopes, &var, &strike, &pairs][h % 8];
+        let cfg = &pool[(h / 8) % pool.len()];
         let case_id = format!("{}/r{}-{}", cfg.name, seed, h);
         *fam_hist.entry(cfg.fam.to_string()).or_default() += 1;
         i += 1;
@@ -2148,7 +2482,8 @@ fn record(seed: u64, histories: usize, len: usize, fill: usize, out: &str) {
         "img_selfcheck": uni.img_selfchecks, "img_fresh_results": uni.img_fresh,
         "differs_by_family": fam_differs, "damaged_fonts": dmg.len(), "damaged_variants_dropped": uni.dropped,
         "damaged_calls_reporting_the_error": dmg_error_calls, "calls_that_panicked": n_panics, "collide_selfcheck": uni.selfchecks,
-        "var_selfcheck": uni.var_selfchecks, "var_fresh_results": uni.var_fresh}));
+        "var_selfcheck": uni.var_selfchecks, "var_fresh_results": uni.var_fresh,
+        "strike_selfcheck": uni.strike_selfchecks, "pairs_selfcheck": uni.pairs_selfchecks, "pairs_fresh_results": uni.pairs_fresh}));
 }
 
 // ---- pure operations repeated -----------------------------------------------------------------
